@@ -908,19 +908,20 @@ class ImpEqToMacro(Macro):
         # preds, concl = pt.prop.strip_implies()
         concl = Or(*args[:-1], pt.prop)
         assert concl == goal, "%s %s" % (concl, goal)
-        return Thm(concl)
+        # Only the hypotheses named by the literals are discharged.
+        discharged = [arg.arg if arg.is_not() else Not(arg) for arg in args[:-1]]
+        return Thm(concl, tuple(hyp for hyp in pt.hyps if hyp not in discharged))
     
     def get_proof_term(self, args, prevs):
-        disjs = []
-        for arg in args:
-            if arg.is_not():
-                disjs.append(arg.arg)
-            else:
-                disjs.append(Not(arg))
-
+        # The last argument is the goal, the others are the literals of the clause:
+        # a literal ~A discharges the hypothesis A, a positive literal A discharges ~A.
         pt = prevs[0]
-        for disj in reversed(disjs):
-            pt = pt.implies_intr(disj).on_prop(rewr_conv('imp_disj_eq'))
+        for arg in reversed(args[:-1]):
+            if arg.is_not():
+                pt = pt.implies_intr(arg.arg).on_prop(rewr_conv('imp_disj_eq'))
+            else:
+                pt = pt.implies_intr(Not(arg)).on_prop(
+                    rewr_conv('imp_disj_eq'), arg1_conv(rewr_conv('double_neg')))
         return pt
 
 
